@@ -49,6 +49,12 @@ func main() {
 	suite := a.Extra["suite"]
 	out := common.NewOut()
 	defer out.Flush()
+	flushComments := func() {
+		for _, c := range comments {
+			out.Line("%s", c)
+		}
+		comments = nil
+	}
 
 	if a.Extra["stdin"] != "" {
 		sc := bufio.NewScanner(os.Stdin)
@@ -70,6 +76,7 @@ func main() {
 				if suite == "pins" {
 					if c, ok := parsePinsCase(f[2:]); ok {
 						out.Line("%s => %s", c.input(), runPins(c))
+						flushComments()
 					}
 				}
 			case "rot":
@@ -109,6 +116,7 @@ func main() {
 		case "pins":
 			c := genPinsCase(r, k, total, a.Tier)
 			out.Line("%s => %s", c.input(), runPins(c))
+			flushComments()
 		case "rot":
 			c := genRotCase(r, k, total)
 			out.Line("%s => %s", c.input(), runRot(c))
